@@ -14,6 +14,7 @@ import (
 
 	"github.com/piotrnar/gocoin/lib/btc"
 	"github.com/piotrnar/gocoin/lib/chain"
+	"github.com/piotrnar/gocoin/lib/secp256k1"
 	"verif/chainkit"
 	"verif/vlib"
 )
@@ -31,6 +32,7 @@ type Res struct {
 	Tip     string `json:"tip"`
 	Height  uint32 `json:"h"`
 	Dump    string `json:"dump"` // chainkit.DumpHash of the whole unspent set after the op
+	Undo    string `json:"undo,omitempty"` // after a block: digest of the tip's undo file (records sorted)
 }
 
 type gen struct {
@@ -42,6 +44,87 @@ type gen struct {
 	hist    map[string]int
 	lastBad [][2]int // (tx index incl. coinbase, input) corrupted by the last blockTxs call
 	cheap   bool     // compressed-records scenario: mostly unsigned fan-outs so that blocks can carry > 32 new transactions
+	tagLen  int      // > 0: unsigned outputs are "tagged" anyone-can-spend scripts of this many distinct bytes (see tagScript)
+}
+
+// p2tr: a witness-v1 output whose output key is the key's x coordinate (spent through the taproot KEY path with a BIP340
+// signature over Tx.TaprootSigHash - the one sighash that reads the amounts and scripts of ALL inputs' spent outputs).
+func p2tr(key *chainkit.Key) []byte { return append([]byte{0x51, 0x20}, key.Pub[1:33]...) }
+
+// tagScript: <push n random bytes> OP_DROP OP_TRUE - spendable with an empty scriptSig like OP_TRUE, but every output has
+// its own bytes, so that a record restored from undo data / written to a snapshot with SOMEBODY ELSE's script shows in the dump.
+func tagScript(g *vlib.Rng, n int) []byte {
+	return append(append([]byte{byte(n)}, g.Bytes(n)...), 0x75, 0x51)
+}
+
+func isTagScript(s []byte) bool {
+	return len(s) >= 4 && int(s[0]) >= 1 && int(s[0]) <= 75 && len(s) == int(s[0])+3 && s[len(s)-2] == 0x75 && s[len(s)-1] == 0x51
+}
+
+// taprootHashTypes: SIGHASH_DEFAULT (64-byte signature), ALL, NONE, ALL|ANYONECANPAY (the last reads only its own spent output)
+var taprootHashTypes = []byte{0, 0, 0, 1, 1, 2, 0x81}
+
+// signTaproot adds the key-path witnesses of the inputs that spend p2tr coins (after chainkit.BuildTx signed the others:
+// their signatures do not commit to witnesses, and the txid does not change).
+func signTaproot(tx *btc.Tx, cs []*chainkit.Coin, g *vlib.Rng) {
+	any := false
+	for _, c := range cs {
+		if c.Kind == "p2tr" {
+			any = true
+		}
+	}
+	if !any {
+		return
+	}
+	tx.AllocVerVars()
+	tx.Spent_outputs = make([]*btc.TxOut, len(cs))
+	for i, c := range cs {
+		tx.Spent_outputs[i] = &btc.TxOut{Value: c.Value, Pk_script: c.Script}
+	}
+	if tx.SegWit == nil {
+		tx.SegWit = make([][][]byte, len(cs))
+		for i := range tx.SegWit {
+			tx.SegWit[i] = [][]byte{}
+		}
+	}
+	for i, c := range cs {
+		if c.Kind != "p2tr" {
+			continue
+		}
+		ht := taprootHashTypes[g.Intn(len(taprootHashTypes))]
+		sh := tx.TaprootSigHash(&btc.ScriptExecutionData{}, i, ht, false)
+		sig := secp256k1.SchnorrSign(sh, c.Key.Priv, g.Bytes(32))
+		if len(sig) != 64 {
+			panic("SchnorrSign failed")
+		}
+		if ht != 0 {
+			sig = append(sig, ht)
+		}
+		tx.SegWit[i] = [][]byte{sig}
+	}
+	tx.Spent_outputs = nil
+	tx.Clean()
+	chainkit.Finish(tx)
+}
+
+// build = chainkit.BuildTx + the taproot key-path signatures
+func (ge *gen) build(ver uint32, cs []*chainkit.Coin, outs []chainkit.OutSpec) *btc.Tx {
+	tx := chainkit.BuildTx(ver, cs, nil, outs, 0)
+	signTaproot(tx, cs, ge.g)
+	return tx
+}
+
+// outCoins = chainkit.OutCoins + the coin kinds only this harness knows (p2tr, tagged anyone-can-spend)
+func (ge *gen) outCoins(tx *btc.Tx, height uint32) []*chainkit.Coin {
+	cs := chainkit.OutCoins(tx, ge.keys, height, false)
+	for _, c := range cs {
+		if c.Kind == "raw" && c.Key != nil && len(c.Script) == 34 {
+			c.Kind = "p2tr"
+		} else if c.Kind == "raw" && isTagScript(c.Script) {
+			c.Kind = "anyone"
+		}
+	}
+	return cs
 }
 
 func newGen(k *chainkit.Kit, g *vlib.Rng) *gen {
@@ -52,6 +135,7 @@ func newGen(k *chainkit.Kit, g *vlib.Rng) *gen {
 		ge.keys[string(key.P2PKH())] = key
 		ge.keys[string(key.P2WPKH())] = key
 		ge.keys[string(key.P2SH_P2WPKH())] = key
+		ge.keys[string(p2tr(key))] = key
 	}
 	return ge
 }
@@ -78,7 +162,7 @@ func (ge *gen) refresh() {
 		c := &chainkit.Coin{Value: val, Script: scr, Height: uint32(h), Coinbase: cb, Kind: "raw"}
 		copy(c.Out.Hash[:], txid)
 		c.Out.Vout = uint32(vout)
-		if len(scr) == 1 && scr[0] == 0x51 {
+		if (len(scr) == 1 && scr[0] == 0x51) || isTagScript(scr) {
 			c.Kind = "anyone"
 		} else if key, ok := ge.keys[string(scr)]; ok {
 			c.Key = key
@@ -89,6 +173,8 @@ func (ge *gen) refresh() {
 				c.Kind = "p2wpkh"
 			case 23:
 				c.Kind = "p2sh-p2wpkh"
+			case 34:
+				c.Kind = "p2tr"
 			}
 		} else {
 			continue
@@ -97,9 +183,16 @@ func (ge *gen) refresh() {
 	}
 }
 
+func (ge *gen) anyone() []byte {
+	if ge.tagLen > 0 {
+		return tagScript(ge.g, ge.tagLen)
+	}
+	return chainkit.AnyoneScript
+}
+
 func (ge *gen) script(kind int) []byte {
 	if ge.cheap && ge.g.Chance(1, 2) {
-		return chainkit.AnyoneScript
+		return ge.anyone()
 	}
 	key := ge.klist[ge.g.Intn(len(ge.klist))]
 	switch kind {
@@ -109,8 +202,10 @@ func (ge *gen) script(kind int) []byte {
 		return key.P2WPKH()
 	case 2:
 		return key.P2SH_P2WPKH()
+	case 4, 5:
+		return p2tr(key)
 	}
-	return chainkit.AnyoneScript
+	return ge.anyone()
 }
 
 // take removes and returns up to n coins (preferring keyed ones when signed is set).
@@ -163,12 +258,12 @@ func (ge *gen) spend(cs []*chainkit.Coin, nout int, fee uint64, bigscripts bool)
 			// unspendable-looking but storable data script: OP_TRUE followed by pushes (keeps records large)
 			s = append([]byte{0x51}, ge.g.Bytes(60+ge.g.Intn(40))...) // never spent by the generator
 		} else {
-			s = ge.script(ge.g.Intn(4))
+			s = ge.script(ge.g.Intn(6))
 		}
 		outs = append(outs, chainkit.OutSpec{Value: v, Script: s})
 	}
 	ver := uint32(1 + ge.g.Intn(2))
-	return chainkit.BuildTx(ver, cs, nil, outs, 0)
+	return ge.build(ver, cs, outs)
 }
 
 // corrupt flips one byte inside the signature of input i; returns false if the input is unsigned.
@@ -179,7 +274,7 @@ func corrupt(tx *btc.Tx, i int, c *chainkit.Coin) bool {
 			return false
 		}
 		tx.TxIn[i].ScriptSig[9] ^= 0x01
-	case "p2wpkh", "p2sh-p2wpkh":
+	case "p2wpkh", "p2sh-p2wpkh", "p2tr":
 		if tx.SegWit == nil || len(tx.SegWit[i]) < 1 || len(tx.SegWit[i][0]) < 12 {
 			return false
 		}
@@ -229,10 +324,67 @@ func (ge *gen) blockTxs(kind string, ntx, maxin int) (txs []*btc.Tx, fees uint64
 		txs = append(txs, tx)
 		lastCoins = cs
 		// outputs of this tx are spendable by later txs of the same block (in-block spends)
-		for _, c := range chainkit.OutCoins(tx, ge.keys, height, false) {
+		for _, c := range ge.outCoins(tx, height) {
 			if c.Kind != "raw" {
 				avail = append(avail, c)
 			}
+		}
+		for j, c := range cs {
+			if c.Kind == "p2tr" {
+				ge.hist["input:taproot-keypath"]++
+				if j < len(cs)-1 {
+					ge.hist["input:taproot-not-last-of-its-tx"]++
+				}
+			}
+		}
+	}
+	// a consolidation: one transaction sweeping several taproot coins (confirmed ones and outputs of this block), sometimes
+	// together with a coin of another kind in the LAST or FIRST position - every taproot worker reads the spent outputs of
+	// all inputs of its transaction
+	if !ge.cheap && ge.g.Chance(3, 4) {
+		var cs []*chainkit.Coin
+		want := 2 + ge.g.Intn(10)
+		for i := 0; i < len(avail) && len(cs) < want; {
+			if avail[i].Kind == "p2tr" {
+				cs = append(cs, avail[i])
+				avail[i] = avail[len(avail)-1]
+				avail = avail[:len(avail)-1]
+			} else {
+				i++
+			}
+		}
+		if len(cs) >= 2 {
+			if ge.g.Chance(1, 3) {
+				if o := ge.take(&avail, 1, true); len(o) == 1 {
+					if ge.g.Bool() {
+						cs = append(cs, o[0])
+					} else {
+						cs = append(o, cs...)
+					}
+				}
+			}
+			tx := ge.spend(cs, 1+ge.g.Intn(2), uint64(1000+ge.g.Intn(3000)), false)
+			fees += sum(cs)
+			for _, o := range tx.TxOut {
+				fees -= o.Value
+			}
+			txs = append(txs, tx)
+			lastCoins = cs
+			nsigned += len(cs)
+			ge.hist["tx:taproot-consolidation"]++
+			for j, c := range cs {
+				if c.Kind == "p2tr" {
+					ge.hist["input:taproot-keypath"]++
+					if j < len(cs)-1 {
+						ge.hist["input:taproot-not-last-of-its-tx"]++
+					}
+				}
+				if c.Height == height {
+					inblock++
+				}
+			}
+		} else {
+			avail = append(avail, cs...)
 		}
 	}
 	note = fmt.Sprintf("%s txs=%d signed_inputs=%d inblock_spends=%d", kind, len(txs), nsigned, inblock)
@@ -290,13 +442,93 @@ func (ge *gen) blockTxs(kind string, ntx, maxin int) (txs []*btc.Tx, fees uint64
 			tx.TxOut[0].Value = cs[0].Value + 12345
 			if cs[0].Kind != "anyone" {
 				// re-sign: build again with the inflated output
-				tx = chainkit.BuildTx(1, cs, nil, []chainkit.OutSpec{{Value: cs[0].Value + 12345, Script: chainkit.AnyoneScript}}, 0)
+				tx = ge.build(1, cs, []chainkit.OutSpec{{Value: cs[0].Value + 12345, Script: chainkit.AnyoneScript}})
 			} else {
 				chainkit.Finish(tx)
 			}
 			txs = append(txs, tx)
 		}
 	}
+	return
+}
+
+// churnTxs: the transactions of a "churn" block. Every transaction spends one (sometimes two) WHOLE unsigned outputs and creates
+// one (sometimes two) tagged outputs of the scenario's script length: the block deletes m records and inserts m records of the same
+// size class, and its undo data holds m records - the delete workers, the insert workers and the undo writer of
+// UnspentDB.CommitBlockTxs all run at the same time. While there are fewer than m such coins the block fans a few coins out first
+// (records with many outputs, spent piecewise later: the delete workers re-serialize the rest).
+func (ge *gen) churnTxs(m int) (txs []*btc.Tx, fees uint64, note string) {
+	ge.lastBad = nil
+	var avail []*chainkit.Coin
+	for _, c := range ge.coins {
+		if c.Kind == "anyone" {
+			avail = append(avail, c)
+		}
+	}
+	for i := len(avail) - 1; i > 0; i-- {
+		j := ge.g.Intn(i + 1)
+		avail[i], avail[j] = avail[j], avail[i]
+	}
+	add := func(cs []*chainkit.Coin, nout int) {
+		tot := sum(cs)
+		fee := uint64(300 + ge.g.Intn(300))
+		if tot < fee+uint64(nout)*600 {
+			return
+		}
+		each := (tot - fee) / uint64(nout)
+		var outs []chainkit.OutSpec
+		for i := 0; i < nout; i++ {
+			v := each
+			if i == nout-1 {
+				v = tot - fee - each*uint64(nout-1)
+			}
+			outs = append(outs, chainkit.OutSpec{Value: v, Script: tagScript(ge.g, ge.tagLen)})
+		}
+		txs = append(txs, chainkit.BuildTx(1+uint32(ge.g.Intn(2)), cs, nil, outs, 0))
+		fees += fee
+	}
+	small := 0
+	for _, c := range avail {
+		if !c.Coinbase {
+			small++
+		}
+	}
+	if small < m {
+		// fan out: the biggest coins first
+		n := 0
+		for _, c := range avail {
+			if c.Value >= 1e8 && n < 3 {
+				add([]*chainkit.Coin{c}, 40+ge.g.Intn(80))
+				n++
+			}
+		}
+		ge.hist["churn:fan-out-block"]++
+		note = fmt.Sprintf("churn fanout txs=%d", len(txs))
+		return
+	}
+	var pool []*chainkit.Coin
+	for _, c := range avail {
+		if !c.Coinbase {
+			pool = append(pool, c)
+		}
+	}
+	whole := 0
+	for len(txs) < m && len(pool) > 0 {
+		nin := 1
+		if ge.g.Chance(1, 8) && len(pool) > 1 {
+			nin = 2
+		}
+		nout := 1
+		if ge.g.Chance(1, 6) {
+			nout = 2
+		}
+		add(pool[:nin], nout)
+		pool = pool[nin:]
+		whole += nin
+	}
+	ge.hist["churn:block"]++
+	ge.hist["churn:outputs-spent"] += whole
+	note = fmt.Sprintf("churn txs=%d spent=%d taglen=%d", len(txs), whole, ge.tagLen)
 	return
 }
 
@@ -309,7 +541,7 @@ func (ge *gen) findCoin(in *btc.TxPrevOut, txs []*btc.Tx, height uint32) *chaink
 	}
 	for _, tx := range txs {
 		if tx.Hash.Hash == in.Hash {
-			cs := chainkit.OutCoins(tx, ge.keys, height, false)
+			cs := ge.outCoins(tx, height)
 			if int(in.Vout) < len(cs) {
 				return cs[in.Vout]
 			}
